@@ -32,6 +32,15 @@ pub const POOL: &[Delims] = &[
 ];
 pub const POOL_EDGE_SPACE: &[Delims] = &[Delims { ds: " @", de: "@ " }];
 
+/// POOL followed by the leading/trailing-space spellings
+pub fn pool_any(i: usize) -> &'static Delims {
+    if i < POOL.len() {
+        &POOL[i]
+    } else {
+        &POOL_EDGE_SPACE[i - POOL.len()]
+    }
+}
+
 pub fn pool(n: usize) -> Vec<Delims> {
     POOL.iter().take(n).cloned().collect()
 }
